@@ -29,6 +29,7 @@ rewritten before every build):
                        K.modifyStartBitsOnShrink, K.modifyStartBitsOnGrow, K.layoutResize,
                        K.shiftLeft, K.shiftRight  (+ their _loopN / _afterN)
     signal_layout.go   (*SignalLayout).generateFilters      K.generateFilters (+ _loop1, _loop2, _after1)
+    signal_layout.go   (*SignalLayout).Decode (the raw-value loop)   K.decodeRaw (+ _loop1, _after1)
 
 The theorems below state that each generated definition equals the hand-written model function
 that the properties C10 / C11 / C13 / C14 (and the layout properties through the enum / mux
@@ -151,6 +152,52 @@ The filters (C02).  `generateFilters` is translated with its nested loops:
     Acme/Proofs/GenKernelsBits.lean); fixing it in the source breaks `K_generateFilters` until the
     model follows.
 
+The raw-value loop of `Decode` (C02).  `(*SignalLayout).Decode` is translated up to the call of
+`decodeSignal` (kernels_decode.go): `K.decodeRaw keep sigs filters data : GoSem.Res (List (Nat × BitVec 64))`
+is the list of (entity id, `rawValue`) pairs for which the Go function appends a decoding, in order.
+  * `data []byte` ↦ `data : List (BitVec 8)` (a bare slice parameter); `sl.filters` ↦
+    `filters : List Acme.Bits.Filter`, read through `byteIdx`, `length`, `leftOffset`, `mask` (↦
+    `BitVec.ofNat 8 f.mask`: the model stores the `Nat` of the `uint8`), `signal.EntityID()` ↦
+    `some f.id`, `signal.Endianness()` ↦ the Go constant value as in `generateFilters`, `signal` ↦
+    `some f.id`; `sl.signals` ↦ `sigs`, only measured (`len(sl.signals) == 0` ↦ no decodings).
+  * `data[filter.byteIdx]` is an index expression NESTED in `uint64((data[..] & mask) >> off)`: it
+    is hoisted into a `match GoSem.index? data byteIdx with | none => Res.panic | some at1_ => ..`
+    in front of the statement (only out of the unconditionally evaluated part of an assignment;
+    anywhere else the translator stops).  `Res.panic` is the model's `none`.
+  * The id sentinel: `EntityID` ↦ `Option Nat` in this kernel, `prevEntID := EntityID("")` ↦ `none`,
+    the id of a signal ↦ `some n`.  CHOICE (instead of `"" ↦ 0` plus a hypothesis "no filter has id
+    0"): the model starts from `cur = none` and allows every `Nat` id, so `K_decodeRaw` needs NO
+    hypothesis about ids; what is assumed — in the projection table, i.e. in the trusted base, not
+    in the theorem — is that no signal has the EMPTY entity id (ids are 21-character nanoids,
+    entity.go `newEntityID`).  `var currSig Signal` / `currSig = filter.signal` / `currSig != nil`
+    ↦ an `Option Nat` (the id of the current signal); the proof's invariant is
+    `prevEntID = currSig = the model's cur`.
+  * `if dec := sl.decodeSignal(currSig, rawValue); dec != nil { decodings = append(decodings, dec) }`:
+    `decodeSignal` (scaling, sign extension, enum lookup) is NOT translated; the opaque-call table
+    replaces the call by `if keep id then some (id, rawValue) else none` with the extra parameter
+    `keep : Nat → Bool` ("decodeSignal does not return nil for this signal"; it returns nil for
+    multiplexer signals).  `Acme.Bits.decodeRaw` keeps EVERY signal and the driver filters the
+    multiplexer signals out afterwards, so the equality is with `List.filter keep` of the model's
+    result, for every predicate `keep` (`keep := fun _ => true`: a layout without multiplexer
+    signals).  `make([]*SignalDecoding, 0, n)` ↦ `[]`, `return nil` ↦ `[]`.
+  * `rawValue` is a `uint64` (`BitVec 64`), the model accumulates in `Nat`: the result carries
+    `BitVec.ofNat 64 raw` (`toNat` = `raw % 2^64`); the loop invariant is
+    `rawValue = BitVec.ofNat 64 raw`.  No size hypothesis (≤ 64 bits) is needed for the equality.
+  * Hypotheses of `K_decodeRaw`, each needed: `hsig : sigs = [] → filters = []` (the Go function
+    returns nil for a layout without signals whatever `sl.filters` holds; the filters are derived
+    from the signals, `K_generateFilters`); `hlen`: for BIG-endian filters `0 ≤ length < 2^64`
+    (`rawValue <<= uint64(filter.length)`: the conversion wraps a negative or ≥ 2^64 `int`, the
+    model shifts by `length.toNat`).  Nothing about the payload (a `BitVec 8` is a byte; over the
+    model's `List Nat` payload: `∀ b ∈ data, b < 256`, `K_decodeRaw_nat`), the masks, the offsets,
+    little-endian lengths, the order or grouping of the filters.  As everywhere, a negative shift
+    count (`leftOffset`, `consumedBits` < 0: a Go panic) is `toNat` = 0 on both sides.
+  * `K_decode_le` / `K_decode_be_partial` compose `K.decodeRaw` with `K.generateFilters` and C02:
+    the two generated functions together extract exactly the payload bits of every kept signal
+    and never index past a payload of at least the layout's size.
+A mutation of the loop (`<<=` ↔ `>>=`, the little-endian shift dropped, `consumedBits` not reset,
+the mask applied after the shift, `!=` ↔ `==` in the new-signal test, …) changes the generated
+text and breaks `K_decodeRaw` (self-test in the report of this kernel).
+
 Where a hypothesis appears (`v < 2 ^ 64`) it says that the argument is a Go `int`: the model
 functions are defined on all of `Int`, the Go function only on 64-bit values (for `v ≥ 2^64` the
 conversion `uint64(val)` of the source has no counterpart in the model).
@@ -160,6 +207,7 @@ import Acme.Proofs.GenKernelsLayout
 import Acme.Proofs.GenKernelsEnum
 import Acme.Proofs.GenKernelsState
 import Acme.Proofs.GenKernelsBits
+import Acme.Proofs.GenKernelsDecode
 
 namespace Acme.Props.GenKernels
 
@@ -334,6 +382,81 @@ end State
 theorem K_generateFilters (l : List (Acme.Layout.Slot × Bool)) :
     K.generateFilters l = Acme.Bits.genFilters l :=
   Acme.GenK.generateFilters_eq l
+
+/-! ### the raw-value loop of `Decode` (signal_layout.go, property C02) -/
+
+section Decode
+open Acme.Layout Acme.Bits
+
+/-- signal_layout.go `Decode`, up to `decodeSignal` = `Acme.Bits.decodeRaw`: for every filter list
+    and every payload the Go loop appends exactly the model's (id, raw) pairs of the signals that
+    `decodeSignal` keeps, the raw value as a `uint64` (the model's `Nat` modulo 2^64), and it
+    panics (`data[filter.byteIdx]`) exactly when the model returns `none`. -/
+theorem K_decodeRaw (keep : Nat → Bool) (sigs : List (Slot × Bool)) (filters : List Filter)
+    (data : List (BitVec 8)) (hsig : sigs = [] → filters = [])
+    (hlen : ∀ f ∈ filters, f.be = true → 0 ≤ f.length ∧ f.length < 2 ^ 64) :
+    K.decodeRaw keep sigs filters data =
+      match Acme.Bits.decodeRaw filters (data.map BitVec.toNat) with
+      | none => .panic
+      | some out => .val ((out.filter (fun p => keep p.1)).map (fun p => (p.1, BitVec.ofNat 64 p.2))) := by
+  rw [Acme.GenK.decodeRaw_eq keep sigs filters data hsig hlen]
+  cases Acme.Bits.decodeRaw filters (data.map BitVec.toNat) <;> rfl
+
+/-- the same over the model's payload, a list of `Nat` bytes -/
+theorem K_decodeRaw_nat (keep : Nat → Bool) (sigs : List (Slot × Bool)) (filters : List Filter)
+    (data : List Nat) (hd : ∀ b ∈ data, b < 256) (hsig : sigs = [] → filters = [])
+    (hlen : ∀ f ∈ filters, f.be = true → 0 ≤ f.length ∧ f.length < 2 ^ 64) :
+    K.decodeRaw keep sigs filters (data.map (BitVec.ofNat 8)) =
+      match Acme.Bits.decodeRaw filters data with
+      | none => .panic
+      | some out => .val ((out.filter (fun p => keep p.1)).map (fun p => (p.1, BitVec.ofNat 64 p.2))) := by
+  rw [Acme.GenK.decodeRaw_eq_nat keep sigs filters data hd hsig hlen]
+  cases Acme.Bits.decodeRaw filters data <;> rfl
+
+/-- `data[filter.byteIdx]` panics exactly when the model returns `none` -/
+theorem K_decodeRaw_panic_iff (keep : Nat → Bool) (sigs : List (Slot × Bool)) (filters : List Filter)
+    (data : List (BitVec 8)) (hsig : sigs = [] → filters = [])
+    (hlen : ∀ f ∈ filters, f.be = true → 0 ≤ f.length ∧ f.length < 2 ^ 64) :
+    K.decodeRaw keep sigs filters data = .panic ↔
+      Acme.Bits.decodeRaw filters (data.map BitVec.toNat) = none :=
+  Acme.GenK.decodeRaw_panic_iff keep sigs filters data hsig hlen
+
+/-- `data[filter.byteIdx]` never panics when every filter's byte index is inside the payload -/
+theorem K_decodeRaw_no_panic (keep : Nat → Bool) (sigs : List (Slot × Bool)) (filters : List Filter)
+    (data : List (BitVec 8)) (hsig : sigs = [] → filters = [])
+    (hlen : ∀ f ∈ filters, f.be = true → 0 ≤ f.length ∧ f.length < 2 ^ 64)
+    (hidx : ∀ f ∈ filters, 0 ≤ f.byteIdx ∧ f.byteIdx < data.length) :
+    K.decodeRaw keep sigs filters data ≠ .panic :=
+  Acme.GenK.decodeRaw_no_panic keep sigs filters data hsig hlen hidx
+
+/-- C02 end to end on the generated code, little endian: `Decode` over `generateFilters` returns
+    the payload bits `start .. start+size-1` of every kept signal, in layout order, for every
+    well-formed layout and every payload of at least `n` bytes (and does not panic). -/
+theorem K_decode_le (keep : Nat → Bool) (n : Nat) (l : List Slot) (hwf : WF (8 * n) l) (hn : IdsNodup l)
+    (h64 : ∀ s ∈ l, s.size ≤ 64) (data : List (BitVec 8)) (hd : n ≤ data.length) :
+    K.decodeRaw keep (l.map (fun s => (s, false))) (K.generateFilters (l.map (fun s => (s, false)))) data =
+      .val (((l.map (fun s => (s.id, rawLE (data.map BitVec.toNat) s.start.toNat s.size.toNat))).filter
+        (fun p => keep p.1)).map (fun p => (p.1, BitVec.ofNat 64 p.2))) :=
+  Acme.GenK.decode_le_gen keep n l hwf hn h64 data hd
+
+/-- the same, big endian, outside the known defect D08 (`BeOK`, see C02) -/
+theorem K_decode_be_partial (keep : Nat → Bool) (n : Nat) (l : List Slot) (hwf : WF (8 * n) l)
+    (hn : IdsNodup l) (h64 : ∀ s ∈ l, s.size ≤ 64) (hok : ∀ s ∈ l, BeOK s) (data : List (BitVec 8))
+    (hd : n ≤ data.length) :
+    K.decodeRaw keep (l.map (fun s => (s, true))) (K.generateFilters (l.map (fun s => (s, true)))) data =
+      .val (((l.map (fun s => (s.id, rawBE (data.map BitVec.toNat) s.start.toNat s.size.toNat))).filter
+        (fun p => keep p.1)).map (fun p => (p.1, BitVec.ofNat 64 p.2))) :=
+  Acme.GenK.decode_be_gen keep n l hwf hn h64 hok data hd
+
+/-! Non-vacuity: two signals (little endian 12 bits at 0, 4 bits at 28), the second one dropped by
+    `keep`; a payload that is too short panics. -/
+example : K.decodeRaw (fun i => i != 2) [(⟨1, 0, 12⟩, false), (⟨2, 28, 4⟩, false)]
+    (K.generateFilters [(⟨1, 0, 12⟩, false), (⟨2, 28, 4⟩, false)]) [0x01#8, 0x08#8, 0#8, 0x90#8] =
+    .val [(1, 0x801#64)] := by decide
+example : K.decodeRaw (fun _ => true) [(⟨1, 0, 12⟩, false), (⟨2, 28, 4⟩, false)]
+    (K.generateFilters [(⟨1, 0, 12⟩, false), (⟨2, 28, 4⟩, false)]) [0x01#8, 0x08#8, 0#8] = .panic := by decide
+
+end Decode
 
 /-! ### enum and multiplexer sizes -/
 
